@@ -300,11 +300,8 @@ verif_i1 = verif_i1 + 1;
 
                 let mut root_scope = root_scope(rule, Rc::new(each.path_value.clone()));
 
-                match eval_rules_file(rule, &mut root_scope, Some(&each.name))? {
-                    Status::FAIL => self.exit_code = FAILURE_STATUS_CODE,
-                    
-                    Status::SKIP => continue,
-                    Status::PASS => {}
+                if let Status::FAIL = eval_rules_file(rule, &mut root_scope, Some(&each.name))? {
+                    self.exit_code = FAILURE_STATUS_CODE;
                 }
 
                 let root_record = root_scope.reset_recorder().extract();
